@@ -90,12 +90,21 @@ def run(ctx: Ctx) -> Outcome:
     if ctx.replay:
         return rtcheck.replay_outcome('C15', ctx)
     scs = scenarios(ctx)
-    model_cov, guided, notes = rtmodel.model_check_and_generate('C15', ctx)
-    mg = rtmodel.managed_model(ctx)          # the manager layer (send_up_or_schedule_tasks, idle propagation, receipts)
+    # TLC works on the L2 models (JVM subprocesses) while the scenarios run in this process' worker pool
+    from concurrent.futures import ThreadPoolExecutor
+    with ThreadPoolExecutor(2) as ex:
+        f_mg = ex.submit(rtmodel.managed_model, ctx)          # the manager layer (send_up_or_schedule_tasks, idle propagation, receipts)
+        f_ex = ex.submit(rtmodel.exhaustive, ctx, 'C15')
+        results = rtcheck.run_scenarios(scs)
+        model_cov, notes = f_ex.result()
+        mg = f_mg.result()
+    cov2, guided, notes2 = rtmodel.simulate_and_replay(ctx, 'C15')
+    model_cov.update(cov2)
+    notes = notes + notes2
     model_cov.update(mg)
     model_cov['l2_states'] = model_cov.get('l2_states', 0) + mg['l2_managed_states']
     model_cov['l2_transitions'] = model_cov.get('l2_transitions', 0) + mg['l2_managed_transitions']
-    out = rtcheck.validate('C15', scs, ctx, extra_traces=guided, extra_cov=model_cov)
+    out = rtcheck.validate('C15', scs, ctx, extra_traces=guided, extra_cov=model_cov, results=results)
     out.notes += notes
     out.assumptions = ['ground truth for "forwarded to exactly one worker" is the set of SUBMIT/SUBMIT_BATCH payloads put on worker channels']
     return out
